@@ -5,7 +5,9 @@ JOBS = [
     dict(name='seq_step', src='c16.cpp', fn='h_seq_step', defines={'QM_STR_CAP': 12}, timeout=300),
     dict(name='seq_at_max', src='c16.cpp', fn='h_seq_at_max', defines={'QM_STR_CAP': 12}, timeout=300),
 ]
-BOUNDS = {'quick': 'level: all 25 (type,threshold) pairs; duplicate: sequences of 3 texts of <=2 UTF-16 units over {a,A,space,b,e-acute,combining-acute,null} + one step from any state with <=2 arbitrary units; seq: 3 calls over 2 pipelines sharing the handler + one step from any counter value',
+for _k in range(5):
+    JOBS.append(dict(name='regexp%d' % _k, src='c16.cpp', fn='h_regexp', defines={'QM_STR_CAP': 12, 'QM_RX_FLAT': 1, 'VF_RX': _k}, timeout=600))
+BOUNDS = {'quick': 'level: all 25 (type,threshold) pairs; duplicate: sequences of 4 texts of <=2 arbitrary UTF-16 units (null included) through the filter API only; regexp: 5 expressions (err, ^a.*b$, ^$, .*, a+b?) x sequences of 2 messages of <=3 units over {a,b,e,r,space,newline,null}; seq: 3 calls over 2 pipelines sharing the handler + one step from any counter value',
           'thorough': 'same with sequences of 5 / 4'}
-OUTSIDE = 'texts longer than 2 units in the sequence harness (the step harness is length-generic only up to 2 units); RegExpFilter (see regexp jobs)'
+OUTSIDE = 'longer texts / sequences; regular expressions outside the flat fragment of the regex model (the matcher itself is Qt/PCRE)'
 ASSUMPTIONS = ['QString equality is code-unit equality (Qt contract)', 'no reference counting in the QSharedPointer model']
